@@ -4,7 +4,7 @@ from core import Gen, ty_l, ty_r
 
 
 class ExprGen:
-    def __init__(self, rng, rigid=False, ops=None, malformed=0.1, maxw=6, mixed=False):
+    def __init__(self, rng, rigid=False, ops=None, malformed=0.1, maxw=6, mixed=False, nary=False):
         self.rng = rng
         self.mixed = mixed      # also ask for adjoint wires plugged into boxes on the plain wire
         self.g = Gen(rng, rigid=rigid, maxw=maxw)
@@ -12,6 +12,8 @@ class ExprGen:
         self.malformed = malformed
         self.ops = ops or ["then", "tensor", "dagger", "slice", "slicerev", "getitem", "interchange",
                            "normal_form", "swap", "perm"] + (["cups", "caps", "transpose"] if rigid else [])
+        if nary and ops is None:    # the n-ary calling convention of then / tensor (opt-in)
+            self.ops = self.ops + ["thenN", "thenN", "thenN", "tensorN"]
 
     # every generator returns (expr, dom, cod, nboxes) with dom/cod None when not tracked
     def leaf(self, dom=None):
@@ -60,6 +62,20 @@ class ExprGen:
                 return ("then", a, b), None, None, an + bn
             b, bd, bc, bn = self.fixed_dom(ac, depth - 1)
             return ("then", a, b), ad, bc, an + bn
+        if op == "thenN":
+            return self.then_n(depth)
+        if op == "tensorN":
+            recv, rd, rc, rn = self.expr(depth - 1)
+            n = r.choice([0, 1, 2, 2, 3, 4])
+            args, dom, cod, total = [], rd, rc, rn
+            for _ in range(n):
+                b, bd, bc, bn = self.expr(max(0, depth - 2))
+                args.append(b)
+                dom = None if dom is None or bd is None else dom + bd
+                cod = None if cod is None or bc is None else cod + bc
+                total += bn
+            forms = ["method", "method", "class", "base"] + (["op"] if n == 1 else [])
+            return ("tensorN", r.choice(forms), recv, args), dom, cod, total
         if op == "tensor":
             a, ad, ac, an = self.expr(depth - 1)
             b, bd, bc, bn = self.expr(depth - 1)
@@ -132,6 +148,50 @@ class ExprGen:
                 return ("cups", l, rr), l + rr, [], len(l)
             return ("caps", l, rr), [], l + rr, len(l)
         raise ValueError(op)
+
+    def other_ty(self, t):
+        """A type that differs from `t`."""
+        for _ in range(20):
+            u = self.g.ty(0, 3)
+            if u != t:
+                return u
+        return list(t) + self.g.ty(1, 1)
+
+    def then_n(self, depth, broken=None):
+        """recv.then(a_1, ..., a_n) with n in 0..4.  The receiver is often an identity (the
+        `Id(x).then(*arrows)` idiom); `broken`: exactly one junction does not match — any of them,
+        the one between the receiver and the first argument included."""
+        r = self.rng
+        n = r.choice([0, 1, 1, 2, 2, 2, 3, 3, 4])
+        if broken is None:
+            broken = n > 0 and r.random() < max(self.malformed, 0.25)
+        if r.random() < 0.4:
+            t = self.g.ty(0, 3)
+            recv, rd, rc, rn = ("id", t), t, t, 0
+        else:
+            recv, rd, rc, rn = self.expr(depth - 1)
+        bad_at = r.randrange(n) if broken and n else -1
+        args, scan, total = [], rc, rn
+        for k in range(n):
+            start = scan
+            if start is None:
+                start = self.g.ty(0, 3)
+            elif k == bad_at:
+                if self.mixed and any(z for _, z in scan) and r.random() < 0.5:
+                    start = [(nm, 0) for nm, _ in scan]     # same names, winding numbers dropped
+                else:
+                    start = self.other_ty(scan)
+            if r.random() < 0.15:
+                a, ac, an = ("id", start), start, 0
+            else:
+                a, _, ac, an = self.fixed_dom(start, max(0, depth - 2))
+            args.append(a)
+            scan, total = ac, total + an
+        forms = ["method", "method", "class", "base"] + (["op", "op", "rop"] if n == 1 else [])
+        e = ("thenN", r.choice(forms), recv, args)
+        if bad_at >= 0 or rc is None:
+            return e, None, None, total
+        return e, rd, scan, total
 
     def malformed_mk(self):
         """Public constructor with offsets that may be out of range / negative,
